@@ -1,4 +1,5 @@
 """C07 - run always terminates and leaves nothing running; cycles are rejected up front."""
+import collections
 import hashlib
 import random
 import threading
@@ -92,6 +93,14 @@ def gen_cases(tier, seed):
         r = random.Random(env.seed_for(s, "descriptor"))
         out.append({"seed": s, "mode": "interrupt_wait", "n": r.randint(3, 14), "W": r.choice([1, 2, 4, 8]), "sched": r.choice(["default", "random"]), "k": r.choice([1, 1, 2, 3, 5]),
                     "perturb": "none", "delays": "none", "cfg": {"out": r.choice(["all", "sinks"])}})
+    for i in range(max(24, n // 100)):
+        # the plan is built by code whose FILE NAME is unusual (a notebook cell run by IPython, "<stdin>", a frozen module, an exec'd string, an empty
+        # name, a very long path): a failing call there ends the run like any other (the error message is made in the worker's failure path)
+        s = env.seed_for(seed, ID, tier, "odd_call_sites", i)
+        r = random.Random(env.seed_for(s, "descriptor"))
+        out.append({"seed": s, "mode": "odd_call_sites", "W": r.choice([1, 1, 2, 4]), "sched": r.choice(["default", "random"]), "max_errors": r.choice([0, None]),
+                    "site": ["ipython_cell", "ipython_core_outer", "stdin", "frozen", "empty", "long", "ipython_core_inner", "percent"][i % 8], "nfail": r.choice([1, 2, 3]),
+                    "progress": r.choice(["none", "none", "html"]), "depth": r.choice([0, 1, 2, 5])})
     for i in range(max(6, n // 150)):
         # hundreds of failing calls in one run that is allowed to go on, with a bundled display attached (which remembers only so many
         # exceptions): it ends like any other run
@@ -503,9 +512,128 @@ def run_registry_fault(desc):
     return res_
 
 
+def run_odd_call_sites(desc):
+    import sys
+
+    import uberjob
+    import uberjob.progress as up
+
+    site = desc["site"]
+    core = "/opt/conda/lib/python3.12/site-packages/IPython/core/interactiveshell.py"
+    fname = {"ipython_cell": "/tmp/ipykernel_4242/1234567890.py", "ipython_core_outer": "/home/u/nb/plans.py", "ipython_core_inner": core, "stdin": "<stdin>",
+             "frozen": "<frozen importlib._bootstrap>", "empty": "", "long": "/data/" + "very-long-directory-name/" * 60 + "plans.py", "percent": "/home/u/100%/{x}/plans\\n.py"}[site]
+    lines = ["def build(plan, fns, depth):", "    if depth > 0:", "        return build(plan, fns, depth - 1)", "    return [plan.call(f) for f in fns]"]
+    ns = {}
+    exec(compile("\n".join(lines) + "\n", fname, "exec"), ns)
+    outer = {}
+    # the cell is run by IPython: the frames above the user's code are IPython's (run_code <- run_ast_nodes <- run_cell ...)
+    exec(compile("def run_code(f, *a):\n    return f(*a)\n", core, "exec"), outer)
+    raised = {}
+    calls_running = [0]
+
+    def mk(i):
+        def f():
+            calls_running[0] += 1
+            try:
+                e = ValueError(f"call {i} failed")
+                raised[i] = e
+                raise e
+            finally:
+                calls_running[0] -= 1
+
+        f.__name__ = f"failing{i}"
+        return f
+
+    def okf():
+        return 1
+
+    fns = [mk(i) for i in range(desc["nfail"])] + [okf, okf]
+    plan = uberjob.Plan()
+    if site in ("ipython_cell", "ipython_core_outer"):
+        nodes = outer["run_code"](ns["build"], plan, fns, desc["depth"])
+    else:
+        nodes = ns["build"](plan, fns, desc["depth"])
+    progress = None
+    if desc["progress"] == "html":
+        progress = up.Progress(lambda: up.HtmlProgressObserver(lambda b: None, initial_update_delay=0.001, min_update_interval=0.002, max_update_interval=0.02))
+    box = {}
+
+    def go():
+        try:
+            box["res"] = uberjob.run(plan, output=nodes, max_workers=desc["W"], scheduler=desc["sched"], max_errors=desc["max_errors"], progress=progress)
+        except BaseException as e:  # noqa
+            box["exc"] = e
+
+    before = rec.thread_census()
+    th = threading.Thread(target=go, daemon=True)
+    th.start()
+    th.join(20)
+    res = {"status": "ok", "counters": {"odd_call_site_runs": 1}, "sets": {"odd_call_sites": [site]}, "nontrivial": True,
+           "sig": f"oddsite|{site}|{desc['W']}|{desc['sched']}|{desc['max_errors']}|{desc['nfail']}|{desc['progress']}|{desc['depth']}"}
+    label = f"[plan built by code in file {fname[:70]!r}{'...' if len(fname) > 70 else ''} ({site}), {desc['nfail']} failing call(s), W={desc['W']}]"
+    if th.is_alive():
+        # bounded progress: no plan function is executing; sample the engine threads - if one of them is found INSIDE the same uberjob function in every one of
+        # 200 samples spread over >= 4 s it is spinning there (a parked thread is the deadlock detector's business)
+        spots = collections.Counter()
+        samples = 0
+        t0 = time.monotonic()
+        while samples < 200 or time.monotonic() - t0 < 4.0:
+            fr = dict(sys._current_frames())
+            for tid, f in fr.items():
+                if tid == threading.get_ident():
+                    continue
+                g = f
+                inner_uber = None
+                while g is not None:
+                    if "/uberjob/" in g.f_code.co_filename.replace("\\", "/"):
+                        inner_uber = (tid, g.f_code.co_name)
+                        break
+                    g = g.f_back
+                if inner_uber and f.f_code.co_name not in ("wait", "get", "join", "acquire", "_wait_for_tstate_lock"):
+                    spots[inner_uber] += 1
+            samples += 1
+            time.sleep(0.02)
+            if not th.is_alive():
+                break
+        if th.is_alive() and calls_running[0] == 0:
+            spinning = [(k, v) for k, v in spots.items() if v >= samples]
+            if spinning:
+                res.update(status="violation", mechanism="hang", taint=True,
+                           detail=f"{label} run has not ended after 20 s + {samples} samples over {time.monotonic() - t0:.1f} s: no plan function is executing and engine thread "
+                                  f"{spinning[0][0][0]} was inside uberjob's {spinning[0][0][1]}() - running, not waiting - in every sample (a loop that never ends)")
+                return res
+        if th.is_alive():
+            return {"status": "inconclusive", "taint": True, "detail": f"{label} run still alive after 20 s of wall clock, no spinning engine thread identified"}
+    exc = box.get("exc")
+    bad = None
+    if type(exc) is not uberjob.CallError:
+        bad = f"run ended with {exc!r:.100} / returned {box.get('res')!r:.60} instead of raising CallError"
+    else:
+        try:
+            msg = str(exc)
+        except BaseException as e:  # noqa
+            bad = f"str(CallError) raised {e!r}"
+        else:
+            if "Symbolic traceback" not in msg:
+                bad = f"CallError message has no symbolic traceback: {msg[:120]!r}"
+    if bad is None:
+        leaked = rec.new_threads(before)
+        leaked = [t_ for t_ in leaked if t_ is not th]
+        if leaked:
+            time.sleep(0.05)
+            leaked = [t_ for t_ in leaked if t_.is_alive()]
+            if leaked:
+                bad = f"thread(s) created by run still alive after it raised: {[t_.name for t_ in leaked]}"
+    if bad:
+        res.update(status="violation", mechanism="leftover-activity", detail=f"{label} {bad}", taint=True)
+    return res
+
+
 def run_case(desc):
     if desc["mode"] == "cyclic":
         return run_cyclic(desc)
+    if desc["mode"] == "odd_call_sites":
+        return run_odd_call_sites(desc)
     if desc["mode"] == "interrupt_wait":
         return run_interrupt_wait(desc)
     if desc["mode"] == "observer_fault":
